@@ -349,7 +349,14 @@ fn v6_exts(mask: u8, big: bool) -> Ipv6Extensions {
     }
 }
 
+thread_local! {
+    /// (DF, MF, fragment offset) that `ip_headers` puts into an `ip(IpHeaders::Ipv4(..))` header instead of
+    /// (true, false, 0); set only by `frag.rs` around its own `make` calls
+    pub static V4_FRAG: std::cell::Cell<Option<(bool, bool, u16)>> = const { std::cell::Cell::new(None) };
+}
+
 fn ip_headers(n: NetC) -> IpHeaders {
+    let (df, mf, off) = V4_FRAG.with(|f| f.get()).unwrap_or((true, false, 0));
     match n {
         NetC::V4Hdr { opts, icv: ic } => IpHeaders::Ipv4(
             Ipv4Header {
@@ -357,9 +364,9 @@ fn ip_headers(n: NetC) -> IpHeaders {
                 ecn: IpEcn::try_new(1).unwrap(),
                 total_len: 7, // overwritten
                 identification: 0xbeef,
-                dont_fragment: true,
-                more_fragments: false,
-                fragment_offset: IpFragOffset::ZERO,
+                dont_fragment: df,
+                more_fragments: mf,
+                fragment_offset: IpFragOffset::try_new(off).unwrap(),
                 time_to_live: 0x7f,
                 protocol: IpNumber(JUNK_IPNUM),  // overwritten
                 header_checksum: 0x1234,         // overwritten
